@@ -469,6 +469,15 @@ func (p *Prog) Func(pkg *packages.Package, name string) *ssa.Function {
 		if !ok {
 			return nil
 		}
+		// a method declared with a value receiver is the declared function itself, not the pointer wrapper
+		vs := p.SSA.MethodSets.MethodSet(tm.Type())
+		for i := 0; i < vs.Len(); i++ {
+			if vs.At(i).Obj().Name() == mn {
+				if f := p.SSA.MethodValue(vs.At(i)); f != nil && f.Synthetic == "" {
+					return f
+				}
+			}
+		}
 		ms := p.SSA.MethodSets.MethodSet(types.NewPointer(tm.Type()))
 		for i := 0; i < ms.Len(); i++ {
 			if ms.At(i).Obj().Name() == mn {
